@@ -24,6 +24,8 @@ T == C.trans
 NonNeg(v) == \A i \in 1..Len(v) : v[i] >= 0
 Clause ==
     IF C.raised # "" THEN "measure-undefined-for-this-pair-of-dimensions"
+    ELSE IF Len(M.pgre) # Len(M.pgrd) \/ Len(M.pgre) # Len(M.plre) \/ (C.ntest > 0 /\ Len(M.pgre) # C.ntest)
+         THEN "pointwise-measures-do-not-have-one-entry-per-test-sample"
     ELSE IF ~(NonNeg(M.pgre) /\ NonNeg(M.pgrd) /\ NonNeg(M.plre)) THEN "pointwise-measure-negative"
     ELSE IF ~RmsOK(M.gre, M.pgre) THEN "GRE-is-not-the-root-mean-square-of-its-pointwise-values"
     ELSE IF ~RmsOK(M.grd, M.pgrd) THEN "GRD-is-not-the-root-mean-square-of-its-pointwise-values"
